@@ -235,6 +235,13 @@ def content(seed, n):
         return b""
     if isinstance(seed, str) and seed.startswith("zero"):
         return bytes(n)                               # preallocated / sparse file: nothing but zero bytes
+    if isinstance(seed, str) and seed.startswith("zmid:"):
+        # sparse image: ordinary bytes with one island of zero bytes [a, b) in the middle  (zmid:<seed>:<a>:<b>)
+        _, sd, a, b = seed.split(":")
+        a, b = min(int(a), n), min(int(b), n)
+        body = bytearray(random.Random(f"content/{sd}").randbytes(n).translate(_NOZERO))
+        body[a:b] = bytes(b - a)
+        return bytes(body)
     if isinstance(seed, str) and seed.startswith("ztail:"):
         # disk image with an unused tail: the last (partial) 16 KiB block and the block before it are zero bytes
         keep = max(0, n - (n % 16384 or 16384) - 16384)
@@ -254,8 +261,16 @@ def materialise(root, files, dirs=(), links=()):
         os.makedirs(os.path.dirname(p), exist_ok=True)
         with open(p, "wb") as fd:
             fd.write(content(cseed, size))
-    for newrel, target in links:
+    for entry in links:
+        newrel, target = entry[0], entry[1]
         p, t = os.path.join(root, newrel), os.path.join(root, target)
+        if len(entry) > 2 and entry[2] == "symdir":
+            # a second NAME for a directory of the payload: relative symbolic link to a sibling / cousin directory
+            # (never a cycle); the files below it are not listed in `files`
+            if os.path.isdir(t) and not os.path.lexists(p):
+                os.makedirs(os.path.dirname(p), exist_ok=True)
+                os.symlink(os.path.relpath(t, os.path.dirname(p)), p)
+            continue
         if os.path.isfile(p) and os.path.isfile(t):
             os.remove(p)
             os.link(t, p)
